@@ -58,6 +58,9 @@ class PresGen:
                 inner = r.choice([base, base, Ty("opt", args=[base])])
                 arr = Ty("arr", args=[inner], n=n)
                 out.append(("container", r.choice([arr, arr, Ty("vec", args=[arr]), Ty("opt", args=[arr])]), it))
+        # a library type whose *name* is a union of object types: what an internally tagged newtype variant intersects with its tag
+        out.append(("container", Ty("raw", "Result<i32, String>"), self.fixed_targets[0]))
+        out.append(("container", Ty("raw", "Result<Vec<bool>, Option<u8>>"), self.fixed_targets[0]))
         return out
 
     def build(self):
@@ -114,16 +117,17 @@ class PresGen:
                     p = self.mk("newtype", fields=[Field(None, prim("u8"), as_=ft.rs(), inline=True)])
                 members["as-inline"] = p
             nv_rep = None
-            if inlineable and r.random() < 0.5:
+            if inlineable and (ft.kind == "raw" or r.random() < 0.5):
                 # the same on the field of a newtype variant, in every representation
-                nv_rep = r.choice(["external", "internal", "adjacent", "untagged"])
+                nv_rep = "internal" if ft.kind == "raw" else r.choice(["external", "internal", "adjacent", "untagged"])
                 reps = {"external": {}, "internal": {"tag": "t"}, "adjacent": {"tag": "t", "content": "c"}, "untagged": {"untagged": True}}[nv_rep]
+                members["nv-name"] = self.mk("enum", variants=[Variant("Va", "newtype", [Field(None, ft)]), Variant("Vb", "unit")], **reps)
                 members["nv-inline-twin"] = self.mk("enum", variants=[Variant("Va", "newtype", [Field(None, ft, inline=True)]), Variant("Vb", "unit")], **reps)
                 members["nv-as-inline"] = self.mk("enum", variants=[Variant("Va", "newtype", [Field(None, prim("u8"), as_=ft.rs(), inline=True)]),
                                                                     Variant("Vb", "unit")], **reps)
             # variant-level `as`: the variant is what it would be if it held one field of type F
-            if r.random() < 0.5:
-                rep = r.choice(["external", "internal", "adjacent", "untagged"])
+            if ft.kind == "raw" or r.random() < 0.5:
+                rep = "internal" if ft.kind == "raw" else r.choice(["external", "internal", "adjacent", "untagged"])
                 reps = {"external": {}, "internal": {"tag": "t"}, "adjacent": {"tag": "t", "content": "c"}, "untagged": {"untagged": True}}[rep]
                 as_attr = f"#[ts(as = {tsgen.rs_str(ft.rs())})]"
                 twin = self.mk("enum", variants=[Variant("Va", "newtype", [Field(None, ft)]), Variant("Vb", "unit")], **reps)
